@@ -241,6 +241,31 @@ def run_engine(tier):
     return res
 
 
+def slots_proof():
+    """C06, unbounded: TLAPS proves that the local slot rules of the monitor imply `running <= limit`
+    for every limit and run length (spec/proof/SlotsInd.tla).  Supplementary: a proof that does not
+    go through in this run is reported as such, never as a verdict."""
+    import re
+    import shutil
+    d = os.path.join(WORK, "proof")
+    shutil.rmtree(d, ignore_errors=True)
+    os.makedirs(d)
+    shutil.copy(os.path.join(SPEC, "proof", "SlotsInd.tla"), d)
+    t0 = time.time()
+    try:
+        r = subprocess.run(["tlapm", "--threads", "4", "SlotsInd.tla"], cwd=d, stdout=subprocess.PIPE,
+                           stderr=subprocess.STDOUT, text=True, timeout=300)
+        m = re.search(r"All (\d+) obligations? proved", r.stdout)
+        out = {"module": "spec/proof/SlotsInd.tla", "tool": "tlapm (SMT, Zenon, PTL)",
+               "status": "proved" if m else "not proved in this run",
+               "obligations": int(m.group(1)) if m else 0, "wall_s": round(time.time() - t0, 1),
+               "theorem": "Spec => [](running <= Limit), for every Limit >= 1"}
+    except (subprocess.TimeoutExpired, OSError) as e:
+        out = {"module": "spec/proof/SlotsInd.tla", "status": f"tool did not finish: {e}"[:200], "obligations": 0}
+    shutil.rmtree(d, ignore_errors=True)
+    return out
+
+
 def check_prop(prop):
     def fn(tier):
         t0 = time.time()
@@ -284,6 +309,8 @@ def check_prop(prop):
                          "summary": res["per_case"].get(sc["id"])}],
             "engine_wall_s": round(res["wall_s"], 1),
         }
+        if prop == "C06":
+            coverage["unbounded_proof"] = slots_proof()
         return {"level": "model_checking", "coverage": coverage, "violations": violations,
                 "assumptions": [
                     "TLC 1.8.0; MC_Runner explores the reference design exhaustively only for its small constants",
